@@ -286,6 +286,12 @@ def default_values(case):
     cm = {"1": 1}
     for k in range(1, 5):
         cm[f"g{k}"] = complex(nprs.standard_normal(), nprs.standard_normal())
+    # [str5-C01] optional 'symscale' {symbol: [num, den]}: the number the symbol is mapped to is the default draw times
+    # num/den (the generator divides the prefactors of that symbol's terms by the same rational: the represented
+    # operator is unchanged, the rational prefactor and the mapped number are badly scaled against each other)
+    for g, (num, den) in (case.get("symscale") or {}).items():
+        if g in cm and g != "1":
+            cm[g] = cm[g] * float(Fraction(int(num), int(den)))
     tr, cr = case.get("tabrepr") or {}, case.get("coefrepr") or {}
     for lab, kind in tr.items():
         if lab in conv:
@@ -564,6 +570,19 @@ def eval_poly(poly, case, conv, cm):
             c *= cm[g]
         M = M + c * m
     return M
+
+
+def poly_scale(poly, conv, cm):
+    """[str5-C01] sum over the keys of |coefficient| * prod max|label matrices|: size of the data eval_poly sums up"""
+    tot = 0.0
+    for (syms, labels), q in poly.items():
+        m = abs(q.numerator / q.denominator)
+        for g in syms:
+            m *= abs(complex(cm[g]))
+        for lab in labels:
+            m *= float(np.max(np.abs(conv[lab])))
+        tot += m
+    return tot
 
 
 # ------------------------------------------------------------------------------------------
@@ -947,6 +966,261 @@ def history_prefix(case, upto):
     return h["init"] + sum(st["n"] for st in h["steps"][:upto] if st["op"] == "extend")
 
 
+# ------------------------------------------------------------------------------------------
+# [str5-C01] magnitudes of the rational prefactors; trees with a node of >= 3 neighbours and many terms; process histories
+# ------------------------------------------------------------------------------------------
+def terms_scale(terms, pre, phys, conv, cm):
+    """sum_k |lambda_k gamma_k| * prod_sites max|A_k,site|: the size of the data the reference is computed from (>= the
+    largest entry of the reference, also when terms cancel).  Tolerances of the 'relscale' cases are relative to it."""
+    tot = 0.0
+    for num, den, g, ops in terms:
+        m = abs(num / den) * abs(complex(cm[g]))
+        for _k, lab in ops:
+            if lab in conv:
+                m *= float(np.max(np.abs(conv[lab])))
+        tot += m
+    return tot
+
+
+def random_magnitude(rng, emax=12):
+    """a positive rational spread over many orders of magnitude (10^-emax .. 10^emax) whose numerator and denominator
+    are no round numbers: small / large, large / small or large / large"""
+    def big(e):
+        return rng.randrange(10 ** e, 10 ** (e + 1)) | 1
+    small = rng.choice([1, 1, 2, 3, 7, rng.randrange(1, 1000)])
+    r = rng.random()
+    if r < 0.4:
+        return Fraction(small, big(rng.randrange(1, emax + 1)))
+    if r < 0.7:
+        return Fraction(big(rng.randrange(1, emax + 1)), small)
+    return Fraction(big(rng.randrange(3, emax + 1)), big(rng.randrange(3, emax + 1)))
+
+
+SCALE_MODES = ["gauge", "gauge", "global", "global", "per_term", "awkward", "gauge+global"]
+
+
+def rescale_terms(rng, terms, mode):
+    """the Fraction prefactors of `terms` re-scaled in place, -> symscale ({symbol: [num, den]}, see default_values)
+      gauge     every symbol g != "1" gets a rational s_g: prefactors of its terms / s_g, mapped number * s_g: the operator is
+                the one of the unscaled case, a tiny (huge) prefactor meets a huge (tiny) mapped number
+      global    all prefactors * s: the whole Hamiltonian is tiny / huge (the oracle's tolerance is relative)
+      per_term  every term its own factor within about six orders of magnitude around a random base
+      awkward   every prefactor * (P/Q) with large P and Q of similar size: values of order one that need large
+                numerators and denominators"""
+    symscale = {}
+    if "gauge" in mode:
+        for g in sorted({t[2] for t in terms} - {"1"}):
+            s = random_magnitude(rng)
+            symscale[g] = [s.numerator, s.denominator]
+            for t in terms:
+                if t[2] == g:
+                    f = Fraction(t[0], t[1]) / s
+                    t[0], t[1] = f.numerator, f.denominator
+    if "global" in mode:
+        s = random_magnitude(rng)
+        for t in terms:
+            f = Fraction(t[0], t[1]) * s
+            t[0], t[1] = f.numerator, f.denominator
+    if mode == "per_term":
+        base = random_magnitude(rng, 9)
+        for t in terms:
+            f = Fraction(t[0], t[1]) * base * random_magnitude(rng, 3)
+            t[0], t[1] = f.numerator, f.denominator
+    if mode == "awkward":
+        for t in terms:
+            e = rng.randrange(5, 13)
+            f = Fraction(t[0], t[1]) * Fraction(rng.randrange(10 ** e, 10 ** (e + 1)) | 1, rng.randrange(10 ** e, 10 ** (e + 1)) | 1)
+            t[0], t[1] = f.numerator, f.denominator
+    return symscale
+
+
+def uncompressed_size(g):
+    """largest node tensor of the BASE diagram: (number of terms)^(number of neighbours) * d^2"""
+    par = parents_of(g["children"])
+    return max(len(g["terms"]) ** (len(cs) + (par[i] is not None)) * g["phys"][i] ** 2 for i, cs in enumerate(g["children"]))
+
+
+def hub_children(rng):
+    """an ordered tree with a node of >= 3 neighbours: star / spider (legs of length 1..2) / random tree, the hub at the
+    root or (re-rooted at a leaf) an inner node with a parent"""
+    shape = rng.choice(["star", "star", "star", "spider", "random"])
+    if shape == "random":
+        while True:
+            ch = random_children(rng, rng.choice([4, 5, 5, 6, 7]))
+            par = parents_of(ch)
+            if any(len(ch[i]) + (par[i] is not None) >= 3 for i in range(len(ch))):
+                return ch
+    k = rng.choice([3, 3, 3, 3, 4, 4, 5])
+    ch = [list(range(1, k + 1))] + [[] for _ in range(k)]
+    if shape == "spider":
+        for leaf in range(1, k + 1):
+            if rng.random() < 0.35 and len(ch) < 7:
+                ch.append([])
+                ch[leaf].append(len(ch) - 1)
+    rng.shuffle(ch[0])
+    if rng.random() < 0.2:
+        ch = [[1]] + [[c + 1 for c in cs] for cs in ch]
+    return ch
+
+
+def hub_group(rng, cap, tmax, tmin=5):
+    """many pairwise distinct terms (tmin..tmax) around a node with >= 3 neighbours: up to 6 operator labels per site
+    (<= d^2 - 1), dense supports; the branching nodes are 'silent' in 65% of the draws (dimension 1, or a physical leg no
+    term acts on: layouts with non-physical branching nodes); prefactors unit / Fractions / Fractions times ONE shared
+    symbol (so that no recorded finding covers the group for SGE and BIPARTITE)"""
+    ch = hub_children(rng)
+    n = len(ch)
+    par = parents_of(ch)
+    phys = [3] * n if rng.random() < 0.5 else [rng.choice([2, 3, 3]) for _ in range(n)]
+    silent = set()
+    for i in range(n):
+        if len(ch[i]) + (par[i] is not None) >= 3 and rng.random() < 0.65:
+            phys[i] = rng.choice([1, 1, 2])
+            silent.add(i)
+    while int(np.prod(phys)) > cap:
+        i = max(range(n), key=lambda q: (phys[q], rng.random()))
+        phys[i] -= 1
+    nlab = rng.choice([2, 3, 6, 6, 6])
+    T = rng.choice([t for t in [5, 6, 8, 10, 12, 16, 20, 24, 30, 40, 60] if tmin <= t <= tmax])
+    ptouch = rng.choice([0.5, 0.7, 0.9, 1.0])
+    coefmode = rng.choice(["unit", "unit", "frac", "onesym"])
+    seen, terms, tries = set(), [], 0
+    while len(terms) < T and tries < 10 * T:
+        tries += 1
+        ops = []
+        for s_ in range(n):
+            d = phys[s_]
+            if d > 1 and s_ not in silent and rng.random() < ptouch:
+                ops.append([s_, f"A{rng.randrange(min(nlab, d * d - 1))}_{d}"])
+        key = tuple(sorted(map(tuple, ops)))
+        if not ops or key in seen:
+            continue
+        seen.add(key)
+        rng.shuffle(ops)
+        fr = Fraction(1) if coefmode == "unit" else Fraction(rng.choice([1, 2, -1, 3, -2, 5]), rng.choice([1, 1, 2, 3]))
+        terms.append([fr.numerator, fr.denominator, "g1" if coefmode == "onesym" else "1", ops])
+    if len(terms) < 2:
+        return None
+    return {"children": ch, "phys": phys, "terms": terms, "nlabels": 6, "coefmode": coefmode, "dupmode": "none", "struct": "hub",
+            "labelset": "std", "seed": rng.randrange(10 ** 6)}
+
+
+# process histories: a case with "proc": "fresh" is executed as the first thing a pristine process does (after the earlier
+# constructions named in its optional "proc_history").  One zygote process per slot imports the library and this module and
+# constructs nothing; every such case runs in a child forked from it, so the module-level state of the library at the
+# start of the case is exactly the state after `import pytreenet` (what a user script that builds one operator sees), and
+# a replay of the case alone reproduces the run.  (Same scheme as props/c12.py; observations come back pickled.)
+_ZYG_BOOT = r"""
+import sys, os, json
+sys.path[:0] = json.loads(os.environ["C01_ZYG_PATH"])
+import warnings; warnings.filterwarnings("ignore")
+import lib
+lib.setup_repo_import()
+import pytreenet  # noqa
+from props import c01
+c01.zygote_loop()
+"""
+_ZYG = {}
+ZYG_SLOTS = 6
+ZYG_TIMEOUT = 300
+
+
+def zygote_loop():
+    """runs in the zygote: one JSON case per line on stdin -> fork -> the child sends the pickled observation"""
+    import base64
+    import json
+    import os
+    import pickle
+    import select
+    import signal
+    import sys
+    import time
+    out = sys.stdout
+    for line in sys.stdin:
+        line = line.strip()
+        if not line:
+            continue
+        r, w = os.pipe()
+        pid = os.fork()
+        if pid == 0:
+            os.close(r)
+            try:
+                try:
+                    ob = C01()._impl_core(json.loads(line))
+                except Exception as e:  # noqa
+                    ob = {"harness_error": f"{type(e).__name__}: {e}", "tb": traceback.format_exc()[-1500:]}
+                data = pickle.dumps(ob)
+            except BaseException as e:  # noqa
+                data = pickle.dumps({"harness_error": f"child: {type(e).__name__}: {e}"})
+            with os.fdopen(w, "wb") as f:
+                f.write(data)
+            os._exit(0)
+        os.close(w)
+        chunks = []
+        t0 = time.time()
+        while True:
+            left = ZYG_TIMEOUT - (time.time() - t0)
+            if left <= 0 or not select.select([r], [], [], left)[0]:
+                os.kill(pid, signal.SIGKILL)
+                chunks = [pickle.dumps({"harness_error": f"fresh-process case exceeded {ZYG_TIMEOUT} s"})]
+                break
+            b = os.read(r, 1 << 16)
+            if not b:
+                break
+            chunks.append(b)
+        os.close(r)
+        os.waitpid(pid, 0)
+        data = b"".join(chunks) or pickle.dumps({"harness_error": "fresh-process child died without an observation"})
+        out.write(base64.b64encode(data).decode() + "\n")
+        out.flush()
+
+
+def _zygote(slot=0):
+    import atexit
+    import json
+    import os
+    import subprocess
+    import sys
+    import lib
+    p = _ZYG.get(slot)
+    if p is not None and p.poll() is None:
+        return p
+    here = os.path.dirname(os.path.dirname(os.path.abspath(__file__)))
+    env = dict(os.environ, C01_ZYG_PATH=json.dumps([here]), PYTHONHASHSEED="0", PYTHONDONTWRITEBYTECODE="1", OMP_NUM_THREADS="1",
+               OPENBLAS_NUM_THREADS="1", MKL_NUM_THREADS="1")
+    env[lib.GUARD] = "1"
+    p = subprocess.Popen([sys.executable, "-W", "ignore", "-c", _ZYG_BOOT], stdin=subprocess.PIPE, stdout=subprocess.PIPE,
+                         stderr=subprocess.DEVNULL, env=env, text=True, bufsize=1)
+    _ZYG[slot] = p
+
+    def _stop():
+        try:
+            p.stdin.close()
+            p.wait(timeout=5)
+        except Exception:  # noqa
+            p.kill()
+    atexit.register(_stop)
+    return p
+
+
+def zygote_run(case, slot=0):
+    import base64
+    import json
+    import pickle
+    import lib
+    try:
+        p = _zygote(slot)
+        p.stdin.write(json.dumps(lib.jsonable(case)) + "\n")
+        p.stdin.flush()
+        line = p.stdout.readline()
+        if not line:
+            raise RuntimeError("zygote process ended")
+        return pickle.loads(base64.b64decode(line.strip()))
+    except Exception as e:  # noqa
+        _ZYG.pop(slot, None)
+        return {"harness_error": f"fresh-process runner: {type(e).__name__}: {e}"}
+
+
 def random_diagram(rng, ch, phys, nlabels=3):
     """a random well-indexed state diagram on the tree: per edge 1..3 vertices, per node 1..4 hyperedges, each
     sitting on one random vertex of every incident edge.  hes: [node, label, num, den, symbol, [vertex index per
@@ -1020,7 +1294,18 @@ class C01(Prop):
             "fresh equal dictionaries) / ham + ham / ham + tensor product / ham.terms.extend until it holds the case's terms, then converted with the case's "
             "method (tie + certificate on this last conversion); every conversion on the way is judged by the oracle against the terms and symbol values "
             "of that moment (where no recorded finding covers that (terms, method) pair); the dense references use the harness's own pristine copies of table "
-            "and symbol values. non-trivial = >= 2 nodes and >= 2 terms; "
+            "and symbol values. 'scale' groups (generic generators, all four methods, tie + certificate as everywhere): the Fraction prefactors are re-scaled over "
+            "10^-12 .. 10^12 with numerators / denominators that are no round numbers - 'gauge': prefactors of a symbol's terms / s and the number the symbol is "
+            "mapped to * s (same operator, tiny prefactor times huge mapped number and vice versa), 'global': the whole Hamiltonian tiny / huge, 'per_term': "
+            "every term its own magnitude within ~6 orders, 'awkward': values of order one with 6..13-digit numerators and denominators; for these cases the "
+            "oracle's tolerance is 1e-9 * sum_k |c_k| prod max|A_k| (relative to the size of the reference's data, no floor of 1) and the tie's tolerances are "
+            "relative per tensor. 'process' groups: every case runs in a process forked from a zygote that imported the library and constructed nothing, i.e. "
+            "as the FIRST construction of a pristine process (what a user script does) or after 1..3 earlier constructions of that process (any method; judged "
+            "too) - 'hub' groups (star / spider / random tree with a node of 3..6 neighbours, hub at the root or an inner node, 5..12 (thorough ..40) pairwise "
+            "distinct terms with dense supports, up to 6 labels per site, branching nodes of dimension 1 / untouched in 65%, prefactors unit / Fraction / Fraction "
+            "times one shared symbol; TREE and BASE where the uncompressed hub tensor fits), 'first' / 'after' groups of the generic generators, all tied and "
+            "certified like the other cases; 'scan' groups = hub groups with 10..40 (..60) terms, methods SGE and BIPARTITE, judged by the property oracle ONLY "
+            "(no export, no model evaluation, no certificate: counted in evaluations, not in traces_validated_against_impl). non-trivial = >= 2 nodes and >= 2 terms; "
             "distinct by case content")
     clauses = [
         ("F", "sd_check_sound / sd_refute_sound: sd_check t H d = true -> the diagram's denotation and sum_k lambda_k gamma_k (x) labels_k have equal "
@@ -1091,11 +1376,16 @@ class C01(Prop):
         ("V", "oracle: sum_k lambda_k*gamma_k*kron(A_k) in site order vs the dense TTNO and vs as_matrix(); identifiers, parent/child relations, child order; physical dimensions; "
               "the reference is computed from the case's term list and the harness's own copies of the operator table and the symbol values (plain complex numbers, "
               "never handed to the library), so it does not move when the library writes into the caller's objects; applied to the conversion of the case and to every "
-              "earlier conversion of the same Hamiltonian object in a history (terms and symbol values of that moment), for every representation of the caller's numbers"),
+              "earlier conversion of the same Hamiltonian object in a history (terms and symbol values of that moment), for every representation of the caller's numbers; "
+              "[str5-C01] for badly scaled prefactors / mapped numbers with a tolerance relative to the size of the reference's data (1e-9 * sum_k |c_k| prod max|A_k|); "
+              "for first constructions of a pristine process and constructions after earlier ones in the same process (forked from a zygote that constructed nothing), "
+              "incl. many-term Hamiltonians around nodes with >= 3 neighbours (part of them oracle-only, see rule)"),
     ]
     trusted_base = ["the export of StateDiagram objects (python identity -> names; vertices sorted by the neighbour they point to, as HyperEdge.find_tensor_position does)",
                     "labels/symbols enter the model as opaque naturals: linear independence of distinct operator strings is not needed for soundness (equal polynomials => equal operators)",
                     "numpy einsum / kron for the dense references (tolerance 1e-9 relative to the operator norm scale)",
+                    "process histories: os.fork from a helper process that imported pytreenet and the harness modules and constructed nothing stands for a freshly "
+                    "started interpreter; observations of these cases come back pickled",
                     # [ext-C01D]
                     "pipeline model: sha256 is modelled by what is hashed (subtree hash = labels of the subtree in pre-order, v_hash = label + vertices outside the cut edge + "
                     "re-hash tag): collision-freeness of sha256 and fixed-length uuid/digest strings are assumed; uuids are modelled as fresh names; the run-time recorder "
@@ -1204,6 +1494,90 @@ class C01(Prop):
             groups.append(g)
         return groups
 
+    @staticmethod
+    def _plain_group(rng, cap, coefmodes=("unit", "frac", "sym", "sym", "symshared", "onesym"), dupmodes=("none", "none", "none", "prop")):
+        """[str5-C01] one (tree, Hamiltonian) of the generic generators: tree of 1..6 nodes, 1..8 terms, no exactly repeated terms;
+        coefficient mode 'onesym' = Fraction prefactors times ONE symbol shared by all terms"""
+        for _ in range(20):
+            n = rng.choice([1, 2, 2, 3, 3, 4, 4, 5, 6])
+            ch = random_children(rng, n)
+            phys = random_phys(rng, n, cap)
+            coefmode = rng.choice(list(coefmodes))
+            dupmode = rng.choice(list(dupmodes))
+            product = rng.random() < 0.3
+            gamma = n >= 2 and coefmode == "sym" and rng.random() < 0.3
+            terms = random_terms(rng, phys, rng.choice([1, 2, 3, 3, 4, 4, 5, 6, 7, 8]), "symshared" if coefmode == "onesym" else coefmode,
+                                 "none" if gamma else dupmode, rng.choice([1, 2, 3]), product=product, gamma_on=(ch if gamma else None))
+            if not terms:
+                continue
+            if coefmode == "onesym":
+                for t in terms:
+                    t[2] = "g1"
+            return {"children": ch, "phys": phys, "terms": terms, "nlabels": 3, "coefmode": coefmode, "dupmode": dupmode,
+                    "struct": ("gamma" if gamma else ("product" if product else "random")), "labelset": "std", "seed": rng.randrange(10 ** 6)}
+        return None
+
+    def _scale_groups(self, ctx, stream, budget_scale):
+        """[str5-C01] the text quantifies over ALL Fraction prefactors and over symbols mapped to ARBITRARY complex numbers:
+        groups of the generic generators whose prefactors are re-scaled (rescale_terms) over many orders of magnitude, with
+        numerators / denominators that are no round numbers; the oracle's tolerance for these cases is relative to the size
+        of the reference's data (terms_scale), without the floor of 1"""
+        rng = ctx.rng(stream + ":scale")
+        cap = ctx.scale(100, 200)
+        groups = []
+        for _ in range(ctx.scale(26, 500) * budget_scale):
+            g = self._plain_group(rng, cap, coefmodes=("frac", "frac", "sym", "symshared", "onesym", "onesym"))
+            if g is None:
+                continue
+            mode = rng.choice(SCALE_MODES)
+            if "gauge" in mode and not ({t[2] for t in g["terms"]} - {"1"}):
+                mode = "global"
+            g["symscale"] = rescale_terms(rng, g["terms"], mode)
+            g.update(family="scale", scalemode=mode, relscale=True)
+            groups.append(g)
+        return groups
+
+    def _process_groups(self, ctx, stream, budget_scale):
+        """[str5-C01] the property holds for every construction, whatever the process did before; what every user script
+        does is the FIRST construction of a process.  'proc': 'fresh' cases run in a process forked from a pristine zygote:
+          hub    hub_group (node with >= 3 neighbours, many terms, silent branching nodes) as the first construction
+          scan   the same with more terms, compressing methods (SGE, BIPARTITE) only, judged by the property oracle only
+                 ('notie': no diagram export, no model evaluation, no certificate) - many cheap first constructions
+          first  a group of the generic generators as the first construction
+          after  a hub / generic group after 1..3 earlier constructions (any method, own trees and Hamiltonians or the same
+                 tree and Hamiltonian with another method) in the same process; the earlier constructions are judged too"""
+        rng = ctx.rng(stream + ":process")
+        cap = ctx.scale(100, 200)
+        plan = ["hub"] * (ctx.scale(14, 300) * budget_scale) + ["first"] * (ctx.scale(8, 150) * budget_scale) + \
+               ["after"] * (ctx.scale(8, 150) * budget_scale) + ["scan"] * (ctx.scale(130, 2000) * budget_scale)
+        groups = []
+        for what in plan:
+            if what == "scan":
+                g = hub_group(rng, cap, ctx.scale(40, 60), tmin=10)
+            elif what == "hub" or (what == "after" and rng.random() < 0.5):
+                g = hub_group(rng, cap, ctx.scale(12, 40))
+            else:
+                g = self._plain_group(rng, cap)
+            if g is None:
+                continue
+            g.update(family="process", proc="fresh", prockind=what)
+            if what == "scan":
+                g["notie"] = True
+            if what == "after":
+                hist = []
+                for _ in range(rng.choice([1, 1, 2, 3])):
+                    if rng.random() < 0.3:
+                        h = {k: g[k] for k in ("children", "phys", "terms", "nlabels", "seed", "labelset")}
+                    else:
+                        h = None
+                        while h is None:
+                            h = hub_group(rng, cap, 16) if rng.random() < 0.4 else self._plain_group(rng, cap)
+                        h = {k: h[k] for k in ("children", "phys", "terms", "nlabels", "seed", "labelset")}
+                    hist.append(dict(h, kind="ham", method=rng.choice(["SGE", "BIPARTITE", "BIPARTITE", "TREE", "BASE"])))
+                g["proc_history"] = hist
+            groups.append(g)
+        return groups
+
     def generate(self, ctx, stream, budget_scale=1):
         cases = []
         for gi, g in enumerate(self._groups(ctx, stream, budget_scale)):
@@ -1216,6 +1590,19 @@ class C01(Prop):
             for m in METHODS:
                 c = dict(g)
                 c.update(kind="ham", method=m, group=10000 + gi)
+                cases.append(c)
+        # [str5-C01] magnitudes of the prefactors / mapped numbers; process histories (same case format again)
+        for gi, g in enumerate(self._scale_groups(ctx, stream, budget_scale)):
+            for m in METHODS:
+                c = dict(g)
+                c.update(kind="ham", method=m, group=20000 + gi)
+                cases.append(c)
+        for gi, g in enumerate(self._process_groups(ctx, stream, budget_scale)):
+            for m in METHODS:
+                if m in ("TREE", "BASE") and (g.get("notie") or uncompressed_size(g) > 20000):
+                    continue       # the uncompressed hub tensor (one bond index per term on every leg) would not fit
+                c = dict(g)
+                c.update(kind="ham", method=m, group=30000 + gi)
                 cases.append(c)
         rng = ctx.rng(stream + ":inject")
         for k in range(ctx.scale(60, 600) * budget_scale):
@@ -1274,19 +1661,44 @@ class C01(Prop):
                 ext = [i for i, s_ in enumerate(st) if s_["op"] == "extend"]
                 c["history:use_extend_use"] += bool(ext and any(s_["op"] in ("convert", "pad", "to_matrix") for s_ in st[:ext[-1]]))
                 c["history:repeat_only"] += not ext
+            # [str5-C01] prefactor magnitudes, process histories, hubs (per group)
+            if x.get("family") == "scale":
+                c["scale:" + x["scalemode"]] += 1
+                mags = [abs(Fraction(t[0], t[1])) for t in x["terms"] if t[0]]
+                for t in x["terms"]:
+                    c["scale:denominator>10^6"] += t[1] > 10 ** 6
+                    c["scale:|prefactor|<10^-6"] += 0 < abs(Fraction(t[0], t[1])) < Fraction(1, 10 ** 6)
+                    c["scale:|prefactor|>10^6"] += abs(Fraction(t[0], t[1])) > 10 ** 6
+                if mags:
+                    import math
+                    c["scale:log10_max_prefactor:%+03d" % (3 * round(math.log10(float(max(mags))) / 3))] += 1
+            if x.get("proc") == "fresh":
+                c["process:" + ("pristine, first construction" if not x.get("proc_history") else "pristine, after earlier constructions")] += 1
+                c["process:" + x.get("prockind", "?")] += 1
+                for h in x.get("proc_history") or []:
+                    c["process:earlier:" + h["method"]] += 1
+            par = parents_of(x["children"])
+            deg = max(len(cs) + (par[i] is not None) for i, cs in enumerate(x["children"]))
+            c["max_neighbours:" + str(deg)] += 1
+            if x.get("struct") == "hub":
+                c["hub:silent_branching_node"] += any(len(cs) + (par[i] is not None) >= 3 and
+                                                      not any(int(k) == i for t in x["terms"] for k, _ in t[3] if not str(k).startswith("x"))
+                                                      for i, cs in enumerate(x["children"]))
+                c["hub:terms:" + ("5-10" if len(x["terms"]) <= 10 else "11-20" if len(x["terms"]) <= 20 else "21+")] += 1
         return dict(c)
 
     # ------------------------------------------------------------------------------ implementation
     # [str-C01] one conversion judged against the reference of the property text
     @staticmethod
-    def _measure(ttno, ch, phys, ref):
+    def _measure(ttno, ch, phys, ref, scale=None):
         """what the oracle needs to know about one TTNO: identifiers / relations / tensor shapes as the TTNO reports them and
-        the deviation of its dense contraction (own einsum) from the reference matrix"""
+        the deviation of its dense contraction (own einsum) from the reference matrix.  scale: what the tolerance is
+        relative to (default: the largest entry of the reference, at least 1; [str5-C01] 'relscale' cases pass terms_scale)"""
         ids = [nid(i) for i in preorder(ch)]
         rec = {"structure": {k: [ttno.nodes[k].parent, list(ttno.nodes[k].children)] for k in ttno.nodes},
                "root": ttno.root_id,
                "shapes": {k: list(ttno.tensors[k].shape) for k in ttno.nodes},
-               "scale": max(1.0, float(np.max(np.abs(ref))))}
+               "scale": max(1.0, float(np.max(np.abs(ref)))) if scale is None else float(scale)}
         try:
             dense = dense_ttno(ttno, ids)
             rec["oracle_dev"] = float(np.max(np.abs(dense - ref))) if dense.shape == ref.shape else f"shape {dense.shape} vs {ref.shape}"
@@ -1383,7 +1795,31 @@ class C01(Prop):
         return log
 
     def _impl_one(self, case):
+        if case.get("proc") == "fresh":
+            # [str5-C01] the case names its whole process history: run it in a process forked from a zygote that has
+            # imported the library and constructed nothing (module-level state exactly as after `import pytreenet`)
+            return zygote_run(case)
+        return self._impl_core(case)
+
+    def _run_earlier(self, h):
+        """[str5-C01] one earlier construction of the process (entry of case['proc_history']), measured like a conversion
+        of a history; judged by the oracle where no recorded finding covers its (terms, method) pair"""
+        rec = {"method": h["method"], "children": h["children"], "phys": h["phys"], "nterms": len(h["terms"]),
+               "judged": self._class_of(h) is None}
+        try:
+            pr = build_ham(h, pristine=True)
+            ttno = TTNO.from_hamiltonian(build_ham(h), build_ref(h), finder(h["method"]))
+            ref = dense_terms(h["terms"], preorder(h["children"]), h["phys"], pr.conversion_dictionary, pr.coeffs_mapping)
+            rec.update(self._measure(ttno, h["children"], h["phys"], ref)[0])
+        except Exception as e:  # noqa
+            site = traceback.extract_tb(e.__traceback__)[-1].name
+            rec["exception"] = f"{type(e).__name__}: {e} [in {site}]"
+        return rec
+
+    def _impl_core(self, case):
         ob = {"method": case["method"]}
+        if case.get("proc_history"):
+            ob["proc_history"] = [self._run_earlier(h) for h in case["proc_history"]]
         ttns = build_ref(case)
         # the harness's own copy of the numbers (fresh complex arrays, plain Python numbers): never handed to the library
         pristine = build_ham(case, pristine=True)
@@ -1419,7 +1855,8 @@ class C01(Prop):
         conv, cm = pconv, pcm
         # ---- structure; oracle: dense reference from the ORIGINAL (unpadded) terms of the case
         ref = dense_terms(case["terms"], pre, case["phys"], conv, cm)
-        rec, dense = self._measure(ttno, ch, case["phys"], ref)
+        rel = bool(case.get("relscale"))        # [str5-C01] tolerances relative to the size of the reference's data, no floor
+        rec, dense = self._measure(ttno, ch, case["phys"], ref, terms_scale(case["terms"], pre, case["phys"], conv, cm) if rel else None)
         ob.update(rec)
         ob["bond_dims"] = {f"{p}|{c}": int(d) for (p, c), d in ttno.bond_dims().items()}
         try:
@@ -1434,6 +1871,8 @@ class C01(Prop):
             pass
         except Exception as e:  # noqa
             ob["as_matrix_dev"] = f"as_matrix failed: {type(e).__name__}: {e}"
+        if case.get("notie"):          # [str5-C01] judged by the property oracle only
+            return ob
         # diagnostics: objects of the caller the library wrote into (reported together with a wrong operator only)
         touched = []
         for g, obj in given.items():
@@ -1471,7 +1910,10 @@ class C01(Prop):
                 if tuple(t.shape) != tuple(mine[v].shape):
                     dev = f"node {nid(v)}: tensor shape {tuple(t.shape)}, diagram gives {tuple(mine[v].shape)}"
                     break
-                dev = max(dev, float(np.max(np.abs(t - mine[v]))) if t.size else 0.0)
+                d_v = float(np.max(np.abs(t - mine[v]))) if t.size else 0.0
+                if rel and d_v:       # relative to the largest entry of this tensor (the tie then compares with TOL itself)
+                    d_v /= float(np.max(np.abs(mine[v]))) or 1.0
+                dev = max(dev, d_v)
             ob["fill_dev"] = dev
         except Exception as e:  # noqa
             ob["fill_dev"] = f"independent filling failed: {type(e).__name__}: {e}"
@@ -1494,20 +1936,49 @@ class C01(Prop):
             ob["strings_sub"] = (have <= raw)
         if dense is not None:
             ob["sel_dev"] = float(np.max(np.abs(eval_poly(sp, case, conv, cm) - dense)))
+            if rel:
+                ob["sel_scale"] = poly_scale(sp, conv, cm)
         return ob
 
     def impl(self, ctx, cases):
-        out = []
-        for c in cases:
+        out = [None] * len(cases)
+        fresh = [k for k, c in enumerate(cases) if c.get("proc") == "fresh"]
+        if len(fresh) > 1:
+            # [str5-C01] every such case runs in its own pristine process, so they can run side by side (one zygote per slot)
+            import queue
+            from concurrent.futures import ThreadPoolExecutor
+            slots = queue.Queue()
+            for s_ in range(ZYG_SLOTS):
+                slots.put(s_)
+
+            def run(k):
+                s_ = slots.get()
+                try:
+                    return k, zygote_run(cases[k], s_)
+                finally:
+                    slots.put(s_)
+            with ThreadPoolExecutor(ZYG_SLOTS) as ex:
+                for k, ob in ex.map(run, fresh):
+                    out[k] = ob
+        for k, c in enumerate(cases):
+            if out[k] is not None:
+                continue
             try:
-                out.append(self._impl_one(c))
+                out[k] = self._impl_one(c)
             except Exception as e:  # noqa  (harness-side failure: surfaces as a broken tie)
-                out.append({"method": c.get("method"), "harness_error": f"{type(e).__name__}: {e}", "tb": traceback.format_exc()[-1500:]})
+                out[k] = {"method": c.get("method"), "harness_error": f"{type(e).__name__}: {e}", "tb": traceback.format_exc()[-1500:]}
         return out
 
     # ------------------------------------------------------------------------------ model
     def model(self, ctx, cases, obs):
         exprs = []
+        tied = [k for k, c in enumerate(cases) if not c.get("notie")]        # [str5-C01] 'notie' cases: property oracle only
+        if len(tied) < len(cases):
+            sub = self.model(ctx, [cases[k] for k in tied], [obs[k] for k in tied])
+            vals = [None] * len(cases)
+            for k, v in zip(tied, sub):
+                vals[k] = v
+            return vals
         for c, ob in zip(cases, obs):
             ex = ob.get("sd") if isinstance(ob, dict) else None
             have = bool(ex) and not ex.get("malformed")
@@ -1526,7 +1997,7 @@ class C01(Prop):
                 f"match pad_ham idlab_std {coq_dims(c)} t {coq_uterms(c)} with "
                 f"| Some H => (true, map (fun tm => map (snd tm) (ids t)) H, sd_wf t d, sd_check t H d, sd_diff t H d, {base}, sd_refute t H d, {shp}) "
                 f"| None => (false, [], false, false, None, @None canon, false, {shp}) end)")
-        vals = coq_eval(ctx, IMPORTS, exprs, shard=40, scope="nat_scope")
+        vals = c01d.eval_spread(ctx, IMPORTS, exprs, shard=40, scope="nat_scope")      # [str5-C01] expensive blocks spread over the shards
         c01d.run_model(ctx, cases, obs)      # [ext-C01D] model trace vs recorded steps, stored in the observations [/ext-C01D]
         # per-instance obligations: the exported diagram is well-formed and certified exact
         known = {k["id"] for k in load_known() if k.get("property") == self.id and k.get("status") == "known"}
@@ -1630,9 +2101,14 @@ class C01(Prop):
         if refuted == chk:
             return f"sd_check = {chk} and sd_refute = {refuted}: the checker and the refuter must answer oppositely"
         tol = TOL * ob["scale"]
-        if isinstance(ob.get("fill_dev"), str) or ob.get("fill_dev", 1) > tol:
+        if case.get("relscale"):       # [str5-C01] fill_dev is relative per tensor; the selection sum relative to its own data
+            if isinstance(ob.get("fill_dev"), str) or ob.get("fill_dev", 1) > TOL:
+                return f"tensor filling differs from the diagram (relative to the largest entry of the tensor): {ob.get('fill_dev')}"
+            if "sel_dev" in ob and ob["sel_dev"] > TOL * max(ob["scale"], ob.get("sel_scale", 0.0)) * max(1, ob["n_selections"]):
+                return f"contraction of the TTNO differs from the diagram's selection sum by {ob['sel_dev']} (data size {ob.get('sel_scale')})"
+        elif isinstance(ob.get("fill_dev"), str) or ob.get("fill_dev", 1) > tol:
             return f"tensor filling differs from the diagram: {ob.get('fill_dev')}"
-        if "sel_dev" in ob and ob["sel_dev"] > tol * max(1, ob["n_selections"]):
+        elif "sel_dev" in ob and ob["sel_dev"] > tol * max(1, ob["n_selections"]):
             return f"contraction of the TTNO differs from the diagram's selection sum by {ob['sel_dev']}"
         if case["method"] == "BASE":
             mc = unsome(base)
@@ -1680,7 +2156,8 @@ class C01(Prop):
             if rec["shapes"][nid(i)][-2:] != [d, d] or len(rec["shapes"][nid(i)]) != len(ch[i]) + (par[i] is not None) + 2:
                 return f"{tag} node {nid(i)} has tensor shape {rec['shapes'][nid(i)]}, physical dimension should be {d}"
         if isinstance(rec["oracle_dev"], str) or rec["oracle_dev"] > TOL * rec["scale"]:
-            return f"{tag} TTNO differs from sum_k c_k (x) A_k: {rec['oracle_dev']}"
+            rel = f" (largest deviation of an entry; the tolerance is {TOL:g} * {rec['scale']:.6g})" if not isinstance(rec["oracle_dev"], str) else ""
+            return f"{tag} TTNO differs from sum_k c_k (x) A_k: {rec['oracle_dev']}{rel}"
         return None
 
     def oracle(self, case, ob):
@@ -1693,6 +2170,17 @@ class C01(Prop):
             return None
         # [str-C01] earlier conversions of the same Hamiltonian object (judged where no recorded finding covers the
         # (terms so far, method) pair): each must be exact for the terms and symbol values the object held at that moment
+        # [str5-C01] earlier constructions of the same process (case['proc_history']): each is a conversion of its own
+        for k, rec in enumerate(ob.get("proc_history", [])):
+            if not rec["judged"]:
+                continue
+            tag = (f"[process history] construction no. {k + 1} of a fresh process (method {rec['method']}, {rec['nterms']} terms, "
+                   f"tree {rec['children']}, dims {rec['phys']}):")
+            if "exception" in rec:
+                return f"{tag} raised {rec['exception']}"
+            what = self._oracle_conv(tag, rec["children"], rec["phys"], rec)
+            if what:
+                return what
         nconv = 0
         for rec in ob.get("history", []):
             if rec["op"] != "convert":
@@ -1709,6 +2197,8 @@ class C01(Prop):
                 return what
         hist = f" (conversion no. {nconv + 1} of this Hamiltonian object, after {[r['op'] + (':' + r['how'] if 'how' in r else '') for r in ob['history']]})" \
             if "history" in ob else ""
+        if case.get("proc") == "fresh":
+            hist += f" (construction no. {len(case.get('proc_history') or []) + 1} of a fresh process)"
         if "exception" in ob:
             return f"[{m}] raised {ob['exception']}{hist}"
         what = self._oracle_conv(f"[{m}]", case["children"], case["phys"], ob)
@@ -1762,7 +2252,7 @@ class C01(Prop):
         the Hamiltonian's operator strings and only coefficients are wrong.  C01-duplicate-terms: method SGE/BIPARTITE/TREE, two padded terms are
         identical (prefactor, symbol, operator string), and the diagram denotes the Hamiltonian with repeated terms counted fewer times (>= once), or
         the construction dies with the IndexError of _remove_reduntant_v_hyperedges.  Anything else stays a violation."""
-        if what.startswith("tie:") or what.startswith("[history]"):
+        if what.startswith("tie:") or what.startswith("[history]") or what.startswith("[process history]"):
             return None
         kid = self._class_of(case)
         if kid is None or kid not in known:
